@@ -4,6 +4,10 @@ use vmon::refm::install_quiet_panic_hook;
 use vmon::report::{Args, Report};
 
 fn main() {
+    if std::env::var_os("VMON_NOOP").is_some() {
+        // used by `./check build miri` to compile the binary under the interpreter
+        return;
+    }
     let args = Args::parse();
     let out = args.str("out", "-");
     let mode = args.str("mode", "random");
